@@ -345,6 +345,10 @@ CAPACITY = {'b': 127, 'B': 255, 'h': 32767, 'H': 65535, 'i': 32767, 'I': 65535, 
 UNBOUNDED_NEEDS = 2 ** 32 - 1
 
 
+class _NotAboutIds(Exception):
+    pass
+
+
 def _tc_alternatives(ctx, f, expr, at):
     """[(typecode, upper bound on nCand or None)] for a typecode expression"""
     def bound_of(test, truth):
@@ -358,6 +362,10 @@ def _tc_alternatives(ctx, f, expr, at):
             if truth and isinstance(op, ast.LtE):
                 return K
             return None
+        if isinstance(test, ast.Compare) and len(test.ops) == 1 and isinstance(test.comparators[0], ast.Constant) \
+                and isinstance(test.comparators[0].value, int) and isinstance(test.ops[0], (ast.Lt, ast.LtE)):
+            # a size test on something that is not the declared candidate count: it bounds nothing about the ids stored
+            raise _NotAboutIds(unparse(test.left))
         return 'unknown'
     if isinstance(expr, ast.Constant) and isinstance(expr.value, str):
         return [(expr.value, None)]
@@ -490,15 +498,23 @@ def r26d_tokenizer_precedence(ctx):
 
 def r27_typecode_capacity(ctx):
     R = 'R27'
-    funcs, callers = _pfuncs(ctx)
     n = 0
-    for f in funcs.values():
-        cfg = cfg_of(f)
+    for f in ctx.repo.funcs.values():
+        if not f.module.name.startswith('droop'):
+            continue
         for c in f.own_nodes():
-            if isinstance(c, ast.Call) and unparse(c.func) == 'array.array' and c.args:
+            if isinstance(c, ast.Call) and unparse(c.func) in ('array.array', 'array') and c.args:
                 n += 1
+                cfg = cfg_of(f)
                 at = cfg.of_stmt[ctx.repo.enclosing_stmt(c)]
-                for tc, ub in _tc_alternatives(ctx, f, c.args[0], at):
+                try:
+                    alts = _tc_alternatives(ctx, f, c.args[0], at)
+                except _NotAboutIds as e:
+                    ctx.bad(R, c, f, 'ranking array item type can hold every valid candidate ID',
+                            'the item type is chosen by the size of `%s`, which is not the declared candidate count: candidate IDs run up to nCand '
+                            'whatever that size is (withdrawals lower a count, not the IDs): OverflowError' % e.args[0])
+                    continue
+                for tc, ub in alts:
                     cap = CAPACITY.get(tc)
                     if cap is None:
                         ctx.bad(R, c, f, 'ranking array item type can hold every valid candidate ID', 'unknown/unsuitable typecode %r' % tc)
@@ -739,6 +755,96 @@ def r30_validation(ctx):
             ok = bool(ifs) and bool(stores) and bool(resets)
         ctx.check(ok, R, loops[0] if loops else val.node, val, 'no accepted ballot in %s ranks a candidate twice' % lst.split('.')[-1],
                   'per ballot: fresh seen-set, `if cid in seen: raise`, seen[cid] = cid', 'duplicate check over %s missing or broken' % lst)
+
+
+# ---------------------------------------------------------------------------
+# R52 optional trailing strings
+# ---------------------------------------------------------------------------
+
+def _is_stopiter_handler(h):
+    return isinstance(h, ast.ExceptHandler) and h.type is not None and 'StopIteration' in unparse(h.type)
+
+
+def _is_unquoted_test(t):
+    """`not X.startswith('"')` -> True-edge means: the next token is not a quoted string"""
+    return isinstance(t, ast.UnaryOp) and isinstance(t.op, ast.Not) and isinstance(t.operand, ast.Call) \
+        and isinstance(t.operand.func, ast.Attribute) and t.operand.func.attr == 'startswith' and t.operand.args \
+        and const_str(t.operand.args[0]) == '"'
+
+
+def _none_only_at_end_of_input(h):
+    """helper summary: every `return None` / bare return of h is inside an `except StopIteration` handler or under
+    `if not tok.startswith('"')` - i.e. None means 'no (quoted) token left', never 'an empty string'"""
+    rets = [r for r in h.own_nodes() if isinstance(r, ast.Return) and (r.value is None or (isinstance(r.value, ast.Constant) and r.value.value is None))]
+    if not rets:
+        return False
+    for r in rets:
+        ok = False
+        n = r.parent
+        child = r
+        while n is not None and n is not h.node:
+            if _is_stopiter_handler(n):
+                ok = True
+            if isinstance(n, ast.If) and _is_unquoted_test(n.test) and any(child is b or _contains(b, child) for b in n.body):
+                ok = True
+            child = n
+            n = n.parent
+        if not ok:
+            return False
+    # and no other return can yield None: the remaining returns return a str expression
+    return True
+
+
+def r52_optional_tail(ctx):
+    """After the election title a blt file may carry a source string and then a comment string.  Whether they are there is
+    a fact about the token stream (end of input, or unquoted material), not about the value read: an empty source string
+    `""` is a source string, and the comment after it must still be read."""
+    R = 'R52'
+    cls = ctx.repo.cls(PROFILE)
+    p = cls.methods['_bltParse']
+    cfg = cfg_of(p)
+
+    def stores(attr):
+        return {n for n in cfg.stmt_nodes() if n.kind == 'stmt' and isinstance(n.ast, ast.Assign) and unparse(n.ast.targets[0]) == 'self.' + attr}
+    src, com, tit = stores('source'), stores('comment'), stores('title')
+    need(src and com and tit, 'R52: _bltParse does not assign self.title / self.source / self.comment')
+    # end-of-input witnesses
+    handlers = {n for n in cfg.nodes if n.kind == 'join' and _is_stopiter_handler(n.ast)}
+    wit_edges = set()
+    for t in cfg.nodes:
+        if t.kind == 'test' and isinstance(t.ast, ast.If):
+            if _is_unquoted_test(t.ast.test):
+                wit_edges.add((t, True))
+            tt = t.ast.test
+            if isinstance(tt, ast.Compare) and len(tt.ops) == 1 and isinstance(tt.comparators[0], ast.Constant) and tt.comparators[0].value is None \
+                    and isinstance(tt.ops[0], (ast.Is, ast.IsNot)):
+                # X is None, X assigned from a helper that returns None only at end of input
+                lhs = unparse(tt.left)
+                defs = [n.ast.value for n in cfg.stmt_nodes() if n.kind == 'stmt' and isinstance(n.ast, ast.Assign) and unparse(n.ast.targets[0]) == lhs]
+                okh = bool(defs)
+                for d_ in defs:
+                    h = None
+                    if isinstance(d_, ast.Call) and isinstance(d_.func, ast.Attribute) and unparse(d_.func.value) == 'self':
+                        h = cls.methods.get(cls.mangle(d_.func.attr)) or cls.methods.get(d_.func.attr)
+                    if h is None or not _none_only_at_end_of_input(h):
+                        okh = False
+                if okh:
+                    wit_edges.add((t, isinstance(tt.ops[0], ast.Is)))
+
+    def edge_ok(a, b, lab):
+        return (a, lab) not in wit_edges
+    for name, starts, nxt in (('source', tit, src), ('comment', src, com)):
+        r = cfg.reach(list(starts), avoid=nxt | handlers, edge_ok=edge_ok)
+        bad = cfg.exit in r
+        pth = None
+        if bad:
+            for s0 in starts:
+                pth = pth or cfg.find_path(s0, cfg.exit, avoid=nxt | handlers, edge_ok=edge_ok)
+        ctx.check(not bad, R, list(nxt)[0].ast, p,
+                  'the optional %s string is read whenever another quoted token follows (its absence is decided by the token stream, not by a value)' % name,
+                  'every path from the preceding string to the end of _bltParse reads it, or leaves through end of input / an unquoted token',
+                  'the parser can finish without reading the %s string although a quoted token may follow: %s'
+                  % (name, cfg.describe_path(pth) if pth else ''))
 
 
 # ---------------------------------------------------------------------------
@@ -1042,7 +1148,41 @@ def r32_loops_consume(ctx):
             ctx.check(ok, R, n, f, 'every iteration of a parser loop consumes a token (finite input => termination)',
                       'every path round `while %s` passes a next(...) call' % unparse(n.test)[:40],
                       'a path round `while %s` consumes no token: the parser can hang' % unparse(n.test)[:40])
-    ctx.floor(R, 'parser while-loops', nw, 9)
+    ctx.floor(R, 'parser while-loops', nw, 6)
+    # work proportional to the DECLARED number of candidates (the first token of the file, any size) happens only once the file
+    # has shown that many names: a loop over range(.. nCand ..) either consumes a token per iteration, or runs after such a
+    # loop / after the parse has returned.  Otherwise a one-token file can make the reader allocate without bound.
+    nr = 0
+    pcls = ctx.repo.cls(PROFILE)
+    init = pcls.methods['__init__']
+    for f in funcs.values():
+        cfg = cfg_of(f)
+        fors = [n for n in f.own_nodes() if isinstance(n, ast.For) and isinstance(n.iter, ast.Call) and unparse(n.iter.func) == 'range'
+                and any(isinstance(x, ast.Attribute) and x.attr == 'nCand' for x in ast.walk(n.iter))]
+
+        def consuming(n):
+            head = cfg.of_stmt[n]
+            consumers = {x for x in cfg.nodes_in(n) if any(isinstance(c.func, ast.Name) and c.func.id == 'next' for c in calls_at(x))}
+            return bool(consumers) and head not in cfg.reach([t for t, lab in head.succ if lab is True], avoid=consumers, include_start=True)
+        cons = [n for n in fors if consuming(n)]
+        for n in fors:
+            nr += 1
+            head = cfg.of_stmt[n]
+            how = None
+            if n in cons:
+                how = 'each iteration reads a token'
+            elif any(head not in cfg.reach([cfg.entry], avoid=[cfg.of_stmt[c_]], include_start=True) for c_ in cons if c_ is not n):
+                how = 'runs after the loop that read one name per candidate'
+            elif f is init:
+                pc = {x for x in cfg.stmt_nodes() if any(unparse(c.func) in ('self.bltParse', 'self._bltParse') for c in calls_at(x))}
+                if pc and head not in cfg.reach([cfg.entry], avoid=pc, include_start=True):
+                    how = 'runs after the parse has returned (nCand names were read)'
+            elif f.name.endswith('validate'):
+                how = 'validation runs after the parse'
+            ctx.check(how is not None, R, n, f, 'work proportional to the declared candidate count is done only after that many names were read',
+                      how or '', '`%s` runs as soon as the candidate count is read: a file that merely claims a huge number of candidates makes '
+                      'the reader loop / allocate without bound (MemoryError or a hang instead of a profile error)' % stmt_text(n))
+    ctx.floor(R, 'loops over the declared candidate count', nr, 3)
     # the tokenizer has only for-loops over finite sequences
     tk = ctx.repo.cls(PROFILE).methods.get(ctx.repo.cls(PROFILE).mangle('__bltBlob')) or ctx.repo.cls(PROFILE).methods.get('__bltBlob')
     need(tk is not None, 'tokenizer __bltBlob missing')
